@@ -328,7 +328,9 @@ def read_tabular(f, *, sep='\t', outfmt=None, ftype=None, fmt='blast',
                 if attrs.get('sstrand') not in (None, '+', 'plus'):
                     raise ValueError('Expected strand +, got - in sstrand')
             else:
-                strand = attrs.get('sstrand', '.')
+                # no direction (single-position query or subject): take the strand column,
+                # BLAST writes the words plus/minus
+                strand = {'plus': '+', 'minus': '-'}.get(attrs.get('sstrand', '.'), attrs.get('sstrand', '.'))
             if start > stop:
                 # direction unknown (sstrand N/A or single-position query), still span the subject interval
                 start, stop = stop, start
